@@ -7,6 +7,7 @@ mod alloc;
 mod elem;
 mod hist;
 mod misc;
+mod serdeprobe;
 
 use std::io::Write;
 
@@ -85,6 +86,7 @@ fn main() {
       let _ = writeln!(o, "DONE");
     }
     Some("sizes") => misc::sizes(),
+    Some("serde") => serdeprobe::run(),
     Some("misc") => misc::run(&args[2..]),
     _ => {
       eprintln!("usage: harness run <file> | one <history> | sizes | misc ...");
